@@ -348,6 +348,23 @@ def opsC15 : List (String × Handler) := [
         let b := f.bnd (fun i => ea.getD i (k 0)) (fun i => da.getD i (k 0))
         return fmt [b.m0, b.l, b.r]
       | _ => throw "arity"),
+  -- c15.affrow nx nu na nb <a trees> <b trees> <c tree> x… u… t   → A-row (nx) B-row (nu) c1 f(x,u,t)
+  --   one row `Fn.affRow nx a b c` of an LTV system written as an NLS, linearised at (x, u, t) (theorems nls_ltv_*)
+  ("c15.affrow", fun ts => do
+      match ts with
+      | nx :: nu :: na :: nb :: rest =>
+        let nx ← nat nx; let nu ← nat nu; let na ← nat na; let nb ← nat nb
+        let (a, rest) ← parseFns na rest
+        let (b, rest) ← parseFns nb rest
+        let (c, rest) ← parseFn rest
+        let (x, rest) ← takeNums nx rest
+        let (u, rest) ← takeNums nu rest
+        let (t, _) ← takeNums 1 rest
+        let t := t.getD 0 (k 0)
+        let row := Fn.affRow nx a b c
+        let L := linearize [row] [] x u t
+        return fmt (L.A.getD 0 [] ++ L.B.getD 0 [] ++ [L.c1.getD 0 (k 0), row.eval (mkEnv x u t)])
+      | _ => throw "arity"),
   -- c15.bb <fn> <declared core dims> <rank dims…>* data…   batched helpers with the code's shape assertions
   --   bmv rows cols lv  shapeM shapeV  M-items v-items          (raises when cols ≠ lv or the batch shapes do not broadcast)
   --   bvv ll lr  shapeL shapeR  l-items r-items
